@@ -17,6 +17,7 @@ import random
 import select
 import shutil
 import subprocess
+import time
 from concurrent.futures import ThreadPoolExecutor
 
 import vlib
@@ -207,12 +208,20 @@ def run_batch(ck, exe, lines, first=None, env=None, max_restarts=60):
             out[start + k] = "HANG"
         else:
             rep = [l for l in p.stderr.splitlines() if "ERROR" in l or "SUMMARY" in l or "runtime error" in l]
-            if not rep and p.returncode >= 0 and retries < 3:
-                # the process ended without a sanitizer report or a signal (start failure on an overloaded
-                # machine): not a verdict about the request, run it again
+            if not rep and p.returncode >= 0:
+                # the process ended without a sanitizer report or a signal: it could not start (overloaded machine,
+                # or a library of the build tree being relinked by a concurrent build): not a verdict about the
+                # request; wait and run it again, and give up without a verdict when it persists
                 retries += 1
-                start += k
-                continue
+                if retries <= 4:
+                    time.sleep(5 * retries)
+                    start += k
+                    continue
+                for i in range(start + k, len(lines)):
+                    out[i] = "NOT-RUN"
+                ck.notes.append("harness/driver could not be started (rc=%d): %d requests not run" %
+                                (p.returncode, len(lines) - start - k))
+                break
             out[start + k] = "CRASH rc=%d %s" % (p.returncode, " | ".join(rep)[:400])
         retries = 0
         start += k + 1
@@ -272,8 +281,12 @@ class Session:
         self.restarts += 1
         if out.strip() == "HANG":
             return "HANG"
-        if not rep and rc is not None and rc >= 0 and _retry < 3:
-            return self.ask(line, _retry + 1)     # start failure, not a verdict about the request
+        if not rep and rc is not None and rc >= 0:
+            # could not start (see run_batch): not a verdict about the request
+            if _retry < 4:
+                time.sleep(5 * (_retry + 1))
+                return self.ask(line, _retry + 1)
+            return "NOT-RUN"
         return "CRASH rc=%s %s" % (rc, " | ".join(rep)[:400])
 
     def close(self):
@@ -298,9 +311,9 @@ def build_harness(ck):
 
 
 def answer_desc(a):
-    """('ok', desc) | ('err', text) | ('crash', text)"""
-    if a is None:
-        return ("crash", "missing")
+    """('ok', desc) | ('err', text) | ('crash', text) | ('notrun', '')"""
+    if a is None or a == "NOT-RUN":
+        return ("notrun", "")
     if a.startswith("ok"):
         return ("ok", dec_desc(a.split()[1:]))
     if a.startswith("err"):
@@ -361,7 +374,7 @@ def run(ck):
         same = (a == m) if sa == "ok " else (sa == sm)
         if not same:
             stats["disagreements"] += 1
-            if a is None or a.startswith("CRASH") or a == "HANG":
+            if a is None or a.startswith("CRASH") or a == "HANG" or a == "NOT-RUN" or m == "NOT-RUN":
                 return
             report("corr:%s" % kind, "correspondence Model.lean vs the implementation broken on a %s request" % kind,
                    {"request": req[:3000], "implementation": (a or "")[:1500], "model": (m or "")[:1500]}, False)
@@ -387,6 +400,8 @@ def run(ck):
         req, a, m = rl[j], ra[j], rm[j]
         j += 1
         st, val = answer_desc(a)
+        if st == "notrun":
+            continue
         rep = {"description": d, "file": f, "request": req[:2000], "implementation": (a or "")[:1500],
                "model": (m or "")[:1500],
                "replay": "printf '%s\\n' | work/C47/c47h   (harness/C47/harness.cxx)" % req[:200]}
@@ -426,6 +441,8 @@ def run(ck):
     second, second_meta = [], []
     for (d, s1, s2, b), req, a, m in zip(meta, ml, ma, mm):
         st, val = answer_desc(a)
+        if st == "notrun":
+            continue
         if st == "crash":
             report(SITE_MERGE + ":crash", "mergeTargetsDescription crashes: %s" % val[:160],
                    {"request": req[:2000], "implementation": (a or "")[:800]}, True)
@@ -538,6 +555,8 @@ def run(ck):
             req = "U %s %s" % ("none" if registry is None else hx(registry), enc_desc(d))
             a = hs.ask(req)
             m = ds.ask(req)
+            if a == "NOT-RUN" or m == "NOT-RUN":
+                break
             stats["runs"] += 1
             rep = {"history": h, "run": run_i, "registry_before": registry, "new_description": d,
                    "request": req[:3000], "implementation": (a or "")[:1500], "model": (m or "")[:1500]}
@@ -556,6 +575,8 @@ def run(ck):
             _, logged, newhex = a.split()
             new = unhx(newhex)
             back = answer_desc(hs.ask("R " + hx(new)))
+            if back[0] == "notrun":
+                break
             if damaged:
                 outcome = "logged" if logged == "1" else "silent"
                 if logged != "1" and back[0] == "ok":
@@ -755,7 +776,7 @@ def mfront_stage(ck, rng, report, stats):
             libdirs.add(root)
     env = dict(os.environ)
     env["LD_LIBRARY_PATH"] = ":".join(sorted(libdirs)) + ":" + env.get("LD_LIBRARY_PATH", "")
-    interfaces = ["c", "c++", "excel", "fortran"]
+    interfaces = ["c", "c++", "excel", "cpptest", "octave"]
     suffix = "-c47-%d" % os.getpid()
     semfile = "/dev/shm/sem.mfront-%d%s" % (os.geteuid(), suffix)
 
